@@ -449,6 +449,25 @@ fn main() {
                                 (None, Some(b)) => !b.has_source(),
                                 (None, None) => true,
                             };
+                            // ... and one column further (inside the token): a chained segment must not behave as a range mapping
+                            let inside_ok = {
+                                let t2 = p.lookup_token(t.get_dst_line(), t.get_dst_col() + 1);
+                                match t2 {
+                                    Some(t2) if t2.get_dst_line() == t.get_dst_line() && t2.get_dst_col() == t.get_dst_col() => {
+                                        let want2 = orig.lookup_token(t2.get_src_line(), t2.get_src_col());
+                                        let got2 = c.lookup_token(t.get_dst_line(), t.get_dst_col() + 1);
+                                        match (&want2, &got2) {
+                                            (Some(a), Some(b)) if a.has_source() => a.get_src_line() == b.get_src_line() && a.get_src_col() == b.get_src_col() && a.get_source() == b.get_source(),
+                                            (Some(_), Some(b)) => !b.has_source(),
+                                            (Some(a), None) => !a.has_source(),
+                                            (None, Some(b)) => !b.has_source(),
+                                            (None, None) => true,
+                                        }
+                                    }
+                                    _ => true,
+                                }
+                            };
+                            let same_glb = same_glb && inside_ok;
                             if !same_glb && composition_glb_mismatch.is_none() {
                                 composition_glb_mismatch = Some(format!("generated {}:{} want {:?} got {:?}", t.get_dst_line(), t.get_dst_col(),
                                     want.map(|a| (a.get_source().map(|x| x.to_string()), a.get_src_line(), a.get_src_col())),
@@ -670,6 +689,11 @@ fn main() {
                 "status_is_not" => status != v.as_str().unwrap(),
                 // the configuration asks for the file prologue
                 "prologue_expected" => with_prologue == v.as_bool().unwrap(),
+                // `/*` and `*/` do not pair up in the printed content (a comment was cut in half)
+                "content_unbalanced_block_comment" => {
+                    let body_end = content.rfind("//# sourceMappingURL=").unwrap_or(content.len());
+                    (content[..body_end].matches("/*").count() != content[..body_end].matches("*/").count()) == v.as_bool().unwrap()
+                }
                 "code_is_empty" => code.trim().is_empty() == v.as_bool().unwrap(),
                 "code_contains" => code.contains(v.as_str().unwrap()),
                 "code_not_contains" => !code.contains(v.as_str().unwrap()),
